@@ -10,7 +10,7 @@ Fixpoint psum {A} (f : A -> Q) (l : list A) : Q :=
 
 Lemma qsum_psum : forall A (f : A -> Q) l, qsum f l == psum f l.
 Proof.
-  induction l as [|x t IH]; simpl; [reflexivity|].
+  induction l as [|x t IH]; cbn [qsum psum]; [reflexivity|].
   rewrite Qred_correct, IH. reflexivity.
 Qed.
 
@@ -62,7 +62,7 @@ Proof. intros. rewrite qsum_psum. apply psum_in_le; auto. Qed.
 
 Lemma qprod_nonneg : forall l, (forall x, In x l -> 0 <= x) -> 0 <= qprod l.
 Proof.
-  induction l as [|x t IH]; simpl; intros H; [lra|].
+  induction l as [|x t IH]; cbn [qprod]; intros H; [lra|].
   rewrite Qred_correct. apply Qmult_le_0_compat; [apply H; auto|apply IH; intros; apply H; auto].
 Qed.
 
